@@ -168,7 +168,10 @@ func report(w *World, pc *PropConfig, tier string, seed int, record, partial boo
 		}
 		nObl++
 		isNew := expected != nil && !expected[r.Name]
-		if r.Status == "sat" || !isNew {
+		// an obligation generated from a contract clause is a violation whenever it fails, even under a
+		// new occurrence index; a brand-new generated safety obligation that is merely undecided is not
+		clauseTied := !strings.HasPrefix(r.Kind, "safety.") && !strings.HasPrefix(r.Kind, "overflow.")
+		if r.Status == "sat" || !isNew || clauseTied {
 			failed = append(failed, r)
 		} else {
 			undecided = append(undecided, r)
@@ -196,13 +199,17 @@ func report(w *World, pc *PropConfig, tier string, seed int, record, partial boo
 		os.WriteFile(filepath.Join(verifRoot, "props", pc.ID+".obligations"), []byte(strings.Join(names, "\n")+"\n"), 0o644)
 	}
 	exit := 0
-	os.MkdirAll(filepath.Join(verifRoot, "replays"), 0o755)
+	replayDir := filepath.Join(verifRoot, "replays")
+	if os.Getenv("VERIF_NOEVIDENCE") != "" {
+		replayDir = filepath.Join(os.TempDir(), "govc-selftest-replays")
+	}
+	os.MkdirAll(replayDir, 0o755)
 	for _, r := range knownHit {
 		kf := isKnown(r.Name)
 		fmt.Printf("KNOWN-FINDING: property=%s %s (obligation %s, %s)\n", pc.ID, kf.What, r.Name, r.Status)
 	}
 	for _, r := range failed {
-		rp := filepath.Join(verifRoot, "replays", pc.ID+"-"+sanitize(r.Name)+".json")
+		rp := filepath.Join(replayDir, pc.ID+"-"+sanitize(r.Name)+".json")
 		smt, _ := os.ReadFile(r.File)
 		replay := map[string]interface{}{
 			"property": pc.ID, "obligation": r.Name, "function": r.Func, "kind": r.Kind, "clause": r.Clause, "position": r.Pos,
@@ -230,6 +237,9 @@ func report(w *World, pc *PropConfig, tier string, seed int, record, partial boo
 	}
 	for _, r := range undecided {
 		fmt.Printf("UNDECIDED new obligation %s [%s] at %s: %s\n", r.Name, r.Status, r.Pos, r.Clause)
+		if exit == 0 {
+			exit = 2
+		}
 	}
 	for _, r := range vacuous {
 		fmt.Printf("VACUOUS: cover probe %s is unsat (contradictory precondition or invariant)\n", r.Name)
@@ -253,7 +263,7 @@ func report(w *World, pc *PropConfig, tier string, seed int, record, partial boo
 	wall := time.Since(t0).Seconds()
 	fmt.Printf("%s %s: %d obligations, %d discharged, %d failed, %d undecided-new, %d known findings, %d/%d cover probes ok, %d functions, load %.1fs translate %.1fs wall %.1fs\n",
 		pc.ID, tier, nObl, nDis, len(failed), len(undecided), len(knownHit), nCoverOK, nCover, len(funcs), tLoad, tTrans, wall)
-	if partial {
+	if partial || os.Getenv("VERIF_NOEVIDENCE") != "" {
 		return exit
 	}
 	// evidence
